@@ -35,7 +35,7 @@ MODULES = ["Arc.Recovery.Props", "Arc.Recovery.Obligations"]
 THEOREMS = [("Arc.Recovery.Obligations", t) for t in (
     "C05_deployed_replay_rows", "C05_deployed_replay_raw", "C05_deployed_crash_any_point",
     "C05_deployed_rejected_write_harmless")] + [("Arc.Recovery.Props", t) for t in (
-        "C05_repaired_rows_guard", "C05_repaired_raw_guard", "C05_crash_any_point_repaired",
+        "C05_repaired_rows_guard", "C05_repaired_raw_guard", "C05_crash_any_point_repaired", "C05_rotation_keeps_entries",
         "C05_replay_equals_live", "C05_fixed_rows_guard", "C05_crash_any_point")] + [
     ("Arc.Recovery.Obligations", t) for t in (
         "C05_deployed_replay_guarded", "C05_deployed_crash_guarded", "C05_deployed_open_findings")] + [
@@ -117,6 +117,17 @@ def regression_cases():
                                                                                 (b"note", ("a", [("s", b"n1", "16")]))], "16"))]))] + L.RESTART),
         # duplicate top-level keys: every consumer must read the LAST binding
         ("raw-duplicate-m", [st, _msg(_col(("s", b"cpu"), T0, 4, second_m=("s", b"disk")))] + L.RESTART),
+        # size-triggered rotation: a burst of small enveloped appends, each rotating the file, released at
+        # once by a held writer (rotations within the same millisecond), then crash + recovery
+        ("rotate-burst-held", [dict(op="start", hold=True, rot=True)] +
+         [_msg(_col(("s", b"cpu"), T0 + 10 * i, 10 * i)) for i in range(12)] + [dict(op="persist")] + L.RESTART),
+        ("rotate-burst-mixed", [dict(op="start", rot=True)] +
+         [(_msg(_col(("s", b"mem"), T0 + 10 * i, 10 * i)) if i % 2 else _lp([_pt(b"cpu", [(b"host", b"a")], [(b"v", ("i", i))], T0 + i)]))
+          for i in range(10)] + L.RESTART),
+        # ... and a recovery killed before its second delete (requests with ONE entry each, so that the file
+        # order is the request order)
+        ("rotate-kill-in-recovery", [dict(op="start", rot=True)] + [_msg(_col(("s", b"cpu"), T0 + 10 * i, 10 * i)) for i in range(4)] +
+         [dict(op="crash"), dict(op="start"), dict(op="recover", crash_at=2)] + L.RESTART),
         ("raw-duplicate-unknown", [st, _msg(_col(("s", b"cpu"), T0, 5, extra=[(b"x0", ("i", 1)), (b"x0", ("s", b"two"))]))] + L.RESTART),
     ]
     return [dict(id=800000 + i, events=[dict(e) for e in evs], profile="regression:" + name) for i, (name, evs) in enumerate(out)]
@@ -243,7 +254,10 @@ PROFILES = [dict(name="clean", routing_p=0.0, wild_ts=False, mixed_p=0.0, int_m_
             dict(name="all", routing_p=0.3, wild_ts=True, mixed_p=0.2, int_m_p=0.3, crash_in_recovery=True),
             dict(name="recovery-crash", routing_p=0.0, wild_ts=False, mixed_p=0.0, int_m_p=0.0, crash_in_recovery=True),
             dict(name="wire", routing_p=0.1, wild_ts=False, mixed_p=0.0, int_m_p=0.1, crash_in_recovery=False, wire_p=0.7, dup_p=0.3,
-                 nested_p=0.05)]
+                 nested_p=0.05),
+            # many small enveloped appends under a tiny MaxSizeBytes: every entry rotates the WAL file
+            dict(name="rotate", routing_p=0.0, wild_ts=False, mixed_p=0.0, int_m_p=0.1, crash_in_recovery=False, rot_p=1.0,
+                 writes=(3, 8), wire_p=0.2)]
 
 
 def nontrivial(case):
@@ -345,8 +359,9 @@ def run(res, tier, seed):
         "encode/decode round trip of boxed scalars is taken as the identity and validated by the correspondence",
         "typed msgpack fast path taken to agree with the generic decode (C02); SanitizeUTF8 is a parameter of every theorem, "
         "the correspondence runs valid UTF-8 only",
-        "process-crash model: a completed write(2) survives the kill (page cache), power loss is not modelled; clean shutdown, "
-        "WAL rotation and the periodic purge are outside the event set (C07)",
+        "process-crash model: a completed write(2) survives the kill (page cache), power loss is not modelled; size-triggered WAL "
+        "rotation IS in the event set (tiny MaxSizeBytes: a fresh file after every entry); age-triggered rotation, clean shutdown and "
+        "the periodic purge are not (C07)",
         "flush = every buffered row becomes a stored row of its hour partition (C03); duplicates after a replay of already "
         "flushed rows are allowed (multiset inclusion)",
         "harness re-composes main()'s start-up: writer, buffer, SetWAL in the source order checked each run; the recovery "
@@ -397,6 +412,7 @@ def run(res, tier, seed):
         "requests": {k: sum(1 for i in supported for e in cases[i]["events"] if e["op"] == "write" and (e["req"]["kind"] if e["req"]["kind"] == "lp" else e["req"].get("shape", "msg")) == k)
                      for k in ("lp", "col", "row", "batch", "array", "nested")},
         "held_writer_lifetimes": sum(1 for i in supported for e in cases[i]["events"] if e["op"] == "start" and e.get("hold")),
+        "rotating_lifetimes": sum(1 for i in supported for e in cases[i]["events"] if e["op"] == "start" and e.get("rot")),
         "kills_inside_recovery": sum(sum(1 for k in obs[i]["crashed"] if k) for i in supported),
         "acks": {str(k): sum(1 for i in supported for a in obs[i]["acks"] if a == k) for k in (200, 204, 400, 403, 500)},
         "stored_rows": sum(len(obs[i]["stored"]) for i in supported),
@@ -440,17 +456,29 @@ def run(res, tier, seed):
 
     # ---- correspondence -----------------------------------------------------------------------
     if dis:
-        # prefer a disagreement on which the property itself fails on the implementation's output
+        # prefer a disagreement on which the property itself fails on the implementation's output, and
+        # among those one that fails again when run alone (timing-dependent failures may not)
         bad = [i for i in dis if not codes[i] & 4]
-        k = min(bad or dis, key=lambda i: (len(cases[i]["events"]), i))
+        order = sorted(bad or dis, key=lambda i: (0 if 800000 <= cases[i]["id"] < 900000 else 1, len(cases[i]["events"]), i))
+        k, repro = order[0], False
+        for cand in order[:6]:
+            o1, c1 = evaluate([cases[cand]], variant, "confirm")
+            if (c1[0] & 1) and not (c1[0] & 2) and (not bad or not (c1[0] & 4)):
+                k, repro = cand, True
+                break
         want_oracle = bool(bad)
-        small = shrink(cases[k], variant, lambda c: _still(c, variant, lambda code, c2, o2: (code & 1) and not (code & 2) and
-                                                           (not want_oracle or not (code & 4))))
-        o2, c2 = evaluate([small], variant, "shrunk")
+        if repro:
+            small = shrink(cases[k], variant, lambda c: _still(c, variant, lambda code, c2, o2: (code & 1) and not (code & 2) and
+                                                               (not want_oracle or not (code & 4))))
+            o2, c2 = evaluate([small], variant, "shrunk")
+            if (c2[0] & 2) or (want_oracle and (c2[0] & 4)):          # not reproduced this time: keep the recorded run
+                small, o2, c2 = cases[k], [obs[k]], [codes[k]]
+        else:
+            small, o2, c2 = cases[k], [obs[k]], [codes[k]]
         oracle_fails = not (c2[0] & 4)
         res.violation("model and implementation disagree on a history (%d cases)" % len(dis),
                       {"kind": "correspondence", "correspondence": TIE_NAME, "case": L.case_to_json(small), "observed": o2[0],
-                       "disagreeing_cases": len(dis), "oracle_fails_on_impl": oracle_fails,
+                       "disagreeing_cases": len(dis), "oracle_fails_on_impl": oracle_fails, "reproduced_alone": repro,
                        "how_to_replay": "python3 tools/check.py C05 --replay <this file>"},
                       no_input=not oracle_fails, suffix="corr")
         reported += 1
